@@ -86,6 +86,7 @@ const prelude = `(set-option :produce-models true)
 (declare-const allocbase Int)
 (assert (> allocbase 0))
 (declare-fun chainHas (Iface Int) Bool)
+(declare-fun libErr (Iface) Bool)
 (assert (forall ((e Iface)) (! (=> (not (= (itag e) 0)) (chainHas e (itag e))) :pattern ((itag e)))))
 (assert (forall ((t Int)) (! (not (chainHas (mkI 0 0) t)) :pattern ((chainHas (mkI 0 0) t)))))
 `
@@ -194,6 +195,10 @@ func (d *Decls) tagOf(t types.Type) int {
 	n := len(d.tagTypes) + 1
 	d.tags[key] = n
 	d.tagTypes = append(d.tagTypes, t)
+	if declaredInRepo(t) {
+		// closed world: errors produced by dependencies never carry a /repo-declared type in their chain
+		d.add("(assert (forall ((e Iface)) (! (=> (libErr e) (not (chainHas e %d))) :pattern ((chainHas e %d)))))", n, n)
+	}
 	// implements facts for all known interfaces
 	for ik, it := range d.ifaceImpl {
 		d.implFact(ik, it, t, n)
@@ -425,4 +430,15 @@ func ite(c, a, b string) string {
 		return a
 	}
 	return "(ite " + c + " " + a + " " + b + ")"
+}
+
+func declaredInRepo(t types.Type) bool {
+	if p, ok := t.(*types.Pointer); ok {
+		t = p.Elem()
+	}
+	n, ok := t.(*types.Named)
+	if !ok || n.Obj().Pkg() == nil {
+		return false
+	}
+	return inRepo(n.Obj().Pkg().Path())
 }
